@@ -626,17 +626,32 @@ impl Engine<'_> {
             let z = gs.zp0();
             [z.point(b0)?, z.point(b1)?].map(|p| p.map(F26Dot6::to_bits))
         };
-        // Arithmetic here wraps on overflow, matching the ADD_LONG/SUB_LONG/NEG_LONG
-        // macros used by FreeType
-        let dbx = pb1.x.wrapping_sub(pb0.x);
-        let dby = pb1.y.wrapping_sub(pb0.y);
-        let dax = pa1.x.wrapping_sub(pa0.x);
-        let day = pa1.y.wrapping_sub(pa0.y);
-        let dx = pb0.x.wrapping_sub(pa0.x);
-        let dy = pb0.y.wrapping_sub(pa0.y);
-        use math::mul_div;
-        let discriminant =
-            mul_div(dax, dby.wrapping_neg(), 0x40).wrapping_add(mul_div(day, dbx, 0x40));
+        // FreeType performs this computation with `FT_Long` / `FT_F26Dot6` values, which are
+        // 64 bits wide on LP64 targets: intermediate results that do not fit in 32 bits are
+        // kept, so do the same here.
+        fn mul_div(a: i64, b: i64, c: i64) -> i64 {
+            // <https://gitlab.freedesktop.org/freetype/freetype/-/blob/57617782464411201ce7bbc93b086c1b4d7d84a5/src/base/ftcalc.c#L175>
+            let negative = (a < 0) ^ (b < 0) ^ (c < 0);
+            let (a, b, c) = (a.unsigned_abs(), b.unsigned_abs(), c.unsigned_abs());
+            let d = if c > 0 {
+                a.wrapping_mul(b).wrapping_add(c >> 1) / c
+            } else {
+                0x7FFFFFFF
+            };
+            if negative {
+                (d as i64).wrapping_neg()
+            } else {
+                d as i64
+            }
+        }
+        let [pa0, pa1, pb0, pb1] = [pa0, pa1, pb0, pb1].map(|p| p.map(|v| v as i64));
+        let dbx = pb1.x - pb0.x;
+        let dby = pb1.y - pb0.y;
+        let dax = pa1.x - pa0.x;
+        let day = pa1.y - pa0.y;
+        let dx = pb0.x - pa0.x;
+        let dy = pb0.y - pa0.y;
+        let discriminant = mul_div(dax, -dby, 0x40).wrapping_add(mul_div(day, dbx, 0x40));
         let dotproduct = mul_div(dax, dbx, 0x40).wrapping_add(mul_div(day, dby, 0x40));
         // Useful context from FreeType:
         //
@@ -650,30 +665,17 @@ impl Engine<'_> {
         // thresholding abs(tan(angle)) at 1/19, corresponding to 3 degrees."
         //
         // See <https://gitlab.freedesktop.org/freetype/freetype/-/blob/57617782464411201ce7bbc93b086c1b4d7d84a5/src/truetype/ttinterp.c#L5986>
-        // FreeType evaluates this in `FT_Long`, which is 64 bits wide on LP64 targets
-        if 19 * (discriminant as i64).abs() > (dotproduct as i64).abs() {
-            let v = mul_div(dx, dby.wrapping_neg(), 0x40).wrapping_add(mul_div(dy, dbx, 0x40));
+        if 19i64.wrapping_mul(discriminant.wrapping_abs()) > dotproduct.wrapping_abs() {
+            let v = mul_div(dx, -dby, 0x40).wrapping_add(mul_div(dy, dbx, 0x40));
             let x = mul_div(v, dax, discriminant);
             let y = mul_div(v, day, discriminant);
             let point = gs.zp2_mut().point_mut(point_ix)?;
-            point.x = F26Dot6::from_bits(pa0.x.wrapping_add(x));
-            point.y = F26Dot6::from_bits(pa0.y.wrapping_add(y));
+            point.x = F26Dot6::from_bits(pa0.x.wrapping_add(x) as i32);
+            point.y = F26Dot6::from_bits(pa0.y.wrapping_add(y) as i32);
         } else {
             let point = gs.zp2_mut().point_mut(point_ix)?;
-            point.x = F26Dot6::from_bits(
-                pa0.x
-                    .wrapping_add(pa1.x)
-                    .wrapping_add(pb0.x)
-                    .wrapping_add(pb1.x)
-                    / 4,
-            );
-            point.y = F26Dot6::from_bits(
-                pa0.y
-                    .wrapping_add(pa1.y)
-                    .wrapping_add(pb0.y)
-                    .wrapping_add(pb1.y)
-                    / 4,
-            );
+            point.x = F26Dot6::from_bits(((pa0.x + pa1.x + pb0.x + pb1.x) / 4) as i32);
+            point.y = F26Dot6::from_bits(((pa0.y + pa1.y + pb0.y + pb1.y) / 4) as i32);
         }
         gs.zp2_mut().touch(point_ix, CoordAxis::Both)?;
         Ok(())
